@@ -362,7 +362,7 @@ def conclude(run, proof_ok, pinfo, corr, oracle_violations, deeper_search=None, 
     for c in corr:
         if c["bad"]:
             broken.append("correspondence %s: %d of %d cases disagree" % (c["name"], len(c["bad"]), c["cases"]))
-    if broken and not reported and not run.known_hits:
+    if broken and not reported:
         found = deeper_search() if deeper_search else []
         for v in found[:max_report]:
             if run.violation(v["what"], v["replay"]):
